@@ -596,6 +596,10 @@ class ContractHooks(solvers.QuietHooks):
             v = args[0]
             if isinstance(v, (list, tuple)) and all(isinstance(x, (Fraction, int)) and not isinstance(x, bool) for x in v):
                 return TSeq(list(v))
+            if isinstance(v, (list, tuple)) and all((isinstance(x, (Fraction, int)) and not isinstance(x, bool)) or
+                                                    (isinstance(x, TObj) and getattr(x, "value", None) is not None) for x in v):
+                # torch.tensor copies the *values* of 0-d tensor entries into a new leaf: requires_grad is not inherited
+                return TSeq([x.value if isinstance(x, TObj) else x for x in v])
             return v
         if dotted in ("torch.all", "torch.any") and len(args) == 1 and isinstance(args[0], TSeq):
             return (all if dotted.endswith("all") else any)(bool(x) for x in args[0].vals)
@@ -685,6 +689,12 @@ def eval_check_contract(model, sde=None, y0=None, ts=None, bm="given", method=No
         return ("raise", e.exc_name, e.message)
 
 
+def _scalar_time(value, requires_grad):
+    t = TObj((), "scalar-time", requires_grad=requires_grad)
+    t.value = Fraction(value)
+    return t
+
+
 def r19_7(ctx):
     rep, model = ctx.rep, ctx.model
     rep.rule("R19.7", "validation phase of sdeint (check_contract, assert_no_grad, methods.select, solver constructor) "
@@ -754,6 +764,12 @@ def r19_7(ctx):
         ("logqp without prior drift", dict(sde=make_user_sde(methods=("f", "g")), logqp=True)),
         ("ts requires grad", dict(ts=TSeq((0, 1, 2), requires_grad=True))),
         ("dt requires grad", dict(dt=TObj((), "dt", requires_grad=True))),
+        # a time that requires grad must not slip through inside a list / tuple either (converting the list to a fresh
+        # tensor drops the flag before assert_no_grad looks)
+        ("list ts with a 0-d tensor entry that requires grad",
+         dict(ts=[Fraction(0), Fraction(1, 2), _scalar_time(1, True)])),
+        ("tuple ts with a 0-d tensor entry that requires grad",
+         dict(ts=(Fraction(0), _scalar_time(1, True)))),
         ("method of the other SDE type", dict(method="midpoint")),
         ("srk with general noise", dict(sde=make_user_sde("general"), method="srk")),
         ("srk without space-time Levy area", dict(method="srk", levy="none")),
